@@ -75,6 +75,14 @@ def drive_(a, rng):
     sub = ts.dump_tables()
     sub.subset(gen.arg_form(rng, nodes), record_provenance=False, reorder_populations=ro, remove_unreferenced=ru)
     case.update(nodes=nodes, ro=1 if ro else 0, ru=1 if ru else 0, sub=A(sub))
+    rg0, cleared = abstr.ragged_variant(ts.dump_tables(), rng)
+    rg = rg0.copy()
+    rg.subset(nodes, record_provenance=False, reorder_populations=ro, remove_unreferenced=ru)
+    why = abstr.ragged_consistent(sub, rg, cleared)
+    case["ragged_subset_ok"] = 0 if why else 1
+    case["ragged_union_ok"] = 1
+    if why:
+        case["ragged_why"] = why
     # ---- union of two parts sharing the nodes at least as old as a cutoff
     times = list(ts.nodes_time)
     cutoff = rng.choice(sorted(set(times)))
@@ -103,6 +111,14 @@ def drive_(a, rng):
         if check:
             tu.union(tb, gen.arg_form(rng, mapping), check_shared_equality=True, add_populations=addpop, record_provenance=False)
             other = tb
+            ra_, rb_ = rg0.copy(), rg0.copy()
+            ra_.subset(PA, record_provenance=False, reorder_populations=False)
+            rb_.subset(PB, record_provenance=False, reorder_populations=False)
+            ra_.union(rb_, mapping, check_shared_equality=True, add_populations=addpop, record_provenance=False)
+            why = abstr.ragged_consistent(tu, ra_, cleared)
+            if why:
+                case["ragged_union_ok"] = 0
+                case["ragged_why"] = why
         else:
             tu.union(tb2, mapping, check_shared_equality=False, add_populations=addpop, record_provenance=False)
             other = tb2
